@@ -77,7 +77,7 @@ class RecSpan:
 
     def close(self):
         k = _k.active()
-        seq = self.sink.enter(self.rec["plugin"], "span_close", self.rec["name"])
+        seq = self.sink.enter(self.rec["plugin"], "span_close", (self.rec["name"], self.rec["open_seq"]))
         self.rec["closes"].append((k.me().name if k else "?", seq, k.now_ns if k else 0))
 
 
